@@ -15,6 +15,10 @@ Open Scope string_scope.
 Definition st_running : nat := 1.
 Definition st_error : nat := 2.
 Definition st_success : nat := 4.
+(* a live agent is (request id, status it answers).  The status value st_timeout stands for "the process owns the
+   control socket and accepts the connection but does not answer within the client's 3 s timeout" (stopped, swapped
+   out, starved): sock.ErrTimeout on every request. *)
+Definition st_timeout : nat := 99.
 
 Record aworld := mkA { a_w : world; a_live : list (string * (string * nat)) }.
 
@@ -159,21 +163,32 @@ Section Api.
   (* client.GetLatestStatus: what the live agent says, else the last line of the latest run with running
      corrected to failed, else the default status (none) *)
   Definition latest_status (a : aworld) (loc : string) : nat :=
+    let recorded := match latest_run (h_get loc (w_hist (a_w a))) with
+                    | Some r => match last_line r with Some s => s_st (correct s) | None => 0 end
+                    | None => 0
+                    end in
     match live_get loc (a_live a) with
-    | Some (_, st) => st
-    | None => match latest_run (h_get loc (w_hist (a_w a))) with
-              | Some r => match last_line r with Some s => s_st (correct s) | None => 0 end
-              | None => 0
-              end
+    | Some (_, st) => if Nat.eqb st st_timeout then recorded   (* currentStatus fails: fall back to the history *)
+                      else st
+    | None => recorded
     end.
 
   (* client.GetStatusByRequestID: the relabel applies unless a live agent with the same request id answers *)
+  (* true = the relabel is NOT applied: a live agent answers with the same request id, or the request timed out
+     (GetCurrentStatus returns nil then, client.go:190-195) *)
   Definition addressed_live (a : aworld) (loc rq : string) : bool :=
-    match live_get loc (a_live a) with Some (r, _) => String.eqb r rq | None => false end.
+    match live_get loc (a_live a) with
+    | Some (r, st) => Nat.eqb st st_timeout || String.eqb r rq
+    | None => false
+    end.
 
-  (* client.UpdateStatus refuses when the addressed run is the live one and it is running *)
+  (* client.UpdateStatus refuses when the addressed run is the live one and it is running, and when the DAG's
+     process does not answer (sock.ErrTimeout, client.go:232-235) *)
   Definition update_refused (a : aworld) (loc rq : string) : bool :=
-    match live_get loc (a_live a) with Some (r, st) => String.eqb r rq && Nat.eqb st st_running | None => false end.
+    match live_get loc (a_live a) with
+    | Some (r, st) => Nat.eqb st st_timeout || (String.eqb r rq && Nat.eqb st st_running)
+    | None => false
+    end.
 
   Definition set_world (a : aworld) (w : world) : aworld := mkA w (a_live a).
 
